@@ -116,7 +116,7 @@ func (e *Engine) ghostOf(c *Cell) *ghostState {
 func (e *Engine) now() *Term {
 	name := fmt.Sprintf("now%d", e.nowSeq)
 	e.nowSeq++
-	t := e.ts.Var(name, BV(64))
+	t := e.newVar(name, BV(64))
 	lo := e.ts.BVConst(64, 1<<50)
 	if e.timeNow != nil {
 		lo = e.timeNow
@@ -474,11 +474,11 @@ func init() {
 		},
 		"hash/crc32.Update": func(e *Engine, fn *ssa.Function, a []Value) Value {
 			e.crcSeq++
-			return e.ts.Var(fmt.Sprintf("crc%d", e.crcSeq), BV(32))
+			return e.newVar(fmt.Sprintf("crc%d", e.crcSeq), BV(32))
 		},
 		"hash/crc32.Checksum": func(e *Engine, fn *ssa.Function, a []Value) Value {
 			e.crcSeq++
-			return e.ts.Var(fmt.Sprintf("crc%d", e.crcSeq), BV(32))
+			return e.newVar(fmt.Sprintf("crc%d", e.crcSeq), BV(32))
 		},
 		"github.com/pion/randutil.NewMathRandomGenerator": func(e *Engine, fn *ssa.Function, a []Value) Value {
 			t := e.namedType("github.com/pion/randutil", "mathRandomGenerator")
@@ -486,17 +486,17 @@ func init() {
 		},
 		"(*github.com/pion/randutil.mathRandomGenerator).Uint32": func(e *Engine, fn *ssa.Function, a []Value) Value {
 			e.rndSeq++
-			return e.ts.Var(fmt.Sprintf("rnd%d", e.rndSeq), BV(32))
+			return e.newVar(fmt.Sprintf("rnd%d", e.rndSeq), BV(32))
 		},
 		"(*github.com/pion/randutil.mathRandomGenerator).Uint64": func(e *Engine, fn *ssa.Function, a []Value) Value {
 			e.rndSeq++
-			return e.ts.Var(fmt.Sprintf("rnd%d_64", e.rndSeq), BV(64))
+			return e.newVar(fmt.Sprintf("rnd%d_64", e.rndSeq), BV(64))
 		},
 		"crypto/rand.Read": func(e *Engine, fn *ssa.Function, a []Value) Value {
 			sl := a[0].(SliceV)
 			for i := 0; i < sl.len; i++ {
 				e.rndSeq++
-				e.kid(sl.arr, sl.off+i).v = e.ts.Var(fmt.Sprintf("rnd%d_8", e.rndSeq), BV(8))
+				e.kid(sl.arr, sl.off+i).v = e.newVar(fmt.Sprintf("rnd%d_8", e.rndSeq), BV(8))
 			}
 			return TupleV{e.intConst(sl.len), IfaceV{}}
 		},
